@@ -430,10 +430,10 @@ class Nullness(object):
                     asg = self.local_assigns(fn)
                     for v in vals:
                         if "*" in new:
-                            if not self.nn(v, key[0], fn, asg):
+                            if not (self.nn(v, key[0], fn, asg) or self._guarded(fn, v, v)):
                                 new.discard("*")
                         for i in [i for i in new if isinstance(i, int)]:
-                            if not (isinstance(v, ast.Tuple) and i < len(v.elts) and self.nn(v.elts[i], key[0], fn, asg)):
+                            if not (isinstance(v, ast.Tuple) and i < len(v.elts) and (self.nn(v.elts[i], key[0], fn, asg) or self._guarded(fn, v, v.elts[i]))):
                                 new.discard(i)
                 if new != cur:
                     self.ret[key] = new
@@ -471,6 +471,44 @@ class Nullness(object):
                     changed = True
             if not changed:
                 break
+
+    def _guarded(self, fn, ret_value, e):
+        """e is a plain name and, on the straight-line way down to the `return` whose value is ret_value, a test `if not e: raise ..` /
+        `if e is None: raise ..` (no else) comes after the last binding of e: the return is reached with e not None"""
+        if not isinstance(e, ast.Name):
+            return False
+
+        def find(block, prefix):
+            for k, st in enumerate(block):
+                if isinstance(st, ast.Return) and st.value is not None and (_unawait(st.value) is ret_value):
+                    return prefix + list(block[:k])
+                if isinstance(st, (ast.FunctionDef, ast.AsyncFunctionDef, ast.ClassDef)):
+                    continue
+                for fld in ("body", "orelse", "finalbody"):
+                    b = getattr(st, fld, None)
+                    if isinstance(b, list) and b and isinstance(b[0], ast.stmt):
+                        r = find(b, prefix + list(block[:k]))
+                        if r is not None:
+                            return r
+                for h in getattr(st, "handlers", []) or []:
+                    r = find(h.body, prefix + list(block[:k]))
+                    if r is not None:
+                        return r
+            return None
+        pre = find(fn.body, [])
+        if pre is None:
+            return False
+        for st in reversed(pre):
+            if isinstance(st, ast.If) and not st.orelse and st.body and isinstance(st.body[-1], (ast.Raise, ast.Return)):
+                t = st.test
+                if isinstance(t, ast.UnaryOp) and isinstance(t.op, ast.Not) and isinstance(t.operand, ast.Name) and t.operand.id == e.id:
+                    return True
+                if isinstance(t, ast.Compare) and len(t.ops) == 1 and isinstance(t.ops[0], (ast.Is, ast.Eq)) and isinstance(t.left, ast.Name) and t.left.id == e.id \
+                        and isinstance(t.comparators[0], ast.Constant) and t.comparators[0].value is None:
+                    return True
+            if any(isinstance(n, ast.Name) and n.id == e.id and isinstance(n.ctx, (ast.Store, ast.Del)) for n in ast.walk(st)):
+                return False
+        return False
 
     @staticmethod
     def _never_falls_off(body):
